@@ -247,3 +247,144 @@ Proof.
       intros Hin. apply (h4 _ a0 x eq_refl). rewrite P. apply in_app_or in Hin. apply in_or_app. cbn. tauto.
     + intros m' w E. inversion E. subst m'. cbn [m_work]. apply (h5 m w eq_refl).
     + intros p t0 Hp Hin S. apply (h6 p t0 Hp Hin). rewrite storedb_mark_failed in S. exact S.
+  - (* PollGet *) destruct mg as [m|]; [|exact HS].
+    destruct (m_poll m) eqn:Pl; [exact HS|].
+    destruct (order_ok order (failed_ids sto)); [|exact HS]. cbn [fst snd chk_step]. sim_auto HS.
+    + intros m' E. inversion E. rewrite (h3 m eq_refl). flyn m.
+    + intros m' a0 x E. inversion E. subst m'. destruct m; cbn. apply (h4 _ a0 x eq_refl).
+    + intros m' w E. inversion E. subst m'. destruct m; cbn. apply (h5 _ w eq_refl).
+    + intros H. destruct (h7 H) as [F [m0 [E [A' [B C]]]]]. inversion E. subst m0. split; [assumption|].
+      eexists. split; [reflexivity|]. destruct m; cbn in *. auto.
+  - (* PollNext *) destruct mg as [m|]; [|exact HS].
+    destruct (m_poll m) as [[[|r rest]|t rest|t rest]|] eqn:Pl; try exact HS.
+    + cbn [fst snd chk_step]. sim_auto HS.
+      * intros m' E. inversion E. rewrite (h3 m eq_refl). flyn m.
+      * intros m' a0 x E. inversion E. subst m'. destruct m; cbn. apply (h4 _ a0 x eq_refl).
+      * intros m' w E. inversion E. subst m'. destruct m; cbn. apply (h5 _ w eq_refl).
+      * intros H. destruct (h7 H) as [F [m0 [E [A' [B C]]]]]. inversion E. subst m0. split; [assumption|].
+        eexists. split; [reflexivity|]. destruct m; cbn in *. auto.
+    + destruct (due (c_ri c) now r); [destruct (storedb (r_id r) sto)|]; cbn [fst snd chk_step]; sim_auto HS.
+      * intros m' E. inversion E. rewrite (h3 m eq_refl). flyn m.
+      * intros m' a0 x E. inversion E. subst m'. destruct m; cbn. apply (h4 _ a0 x eq_refl).
+      * intros m' w E. inversion E. subst m'. destruct m; cbn. apply (h5 _ w eq_refl).
+      * intros p t0 Hp Hin S. apply (h6 p t0 Hp Hin). rewrite storedb_mark_pending in S. exact S.
+      * intros m' E. inversion E. rewrite (h3 m eq_refl). flyn m.
+      * intros m' a0 x E. inversion E. subst m'. destruct m; cbn. apply (h4 _ a0 x eq_refl).
+      * intros m' w E. inversion E. subst m'. destruct m; cbn. apply (h5 _ w eq_refl).
+      * intros H. destruct (h7 H) as [F [m0 [E [A' [B C]]]]]. inversion E. subst m0. split; [assumption|].
+        eexists. split; [reflexivity|]. destruct m; cbn in *. auto.
+      * intros m' E. inversion E. rewrite (h3 m eq_refl). flyn m.
+      * intros m' a0 x E. inversion E. subst m'. destruct m; cbn. apply (h4 _ a0 x eq_refl).
+      * intros m' w E. inversion E. subst m'. destruct m; cbn. apply (h5 _ w eq_refl).
+      * intros H. destruct (h7 H) as [F [m0 [E [A' [B C]]]]]. inversion E. subst m0. split; [assumption|].
+        eexists. split; [reflexivity|]. destruct m; cbn in *. auto.
+  - (* PollEnq *) destruct mg as [m|]; [|exact HS].
+    destruct (m_poll m) as [[rest|t rest|t rest]|] eqn:Pl; try exact HS.
+    destruct (has_room QRe c m); cbn [fst snd chk_step]; sim_auto HS.
+    + intros m' E. inversion E. rewrite (h3 m eq_refl). flyn m.
+    + intros m' a0 x E. inversion E. subst m'. destruct m; cbn. apply (h4 _ a0 x eq_refl).
+    + intros m' w E. inversion E. subst m'. destruct m; cbn. apply (h5 _ w eq_refl).
+    + intros m' E. inversion E. rewrite (h3 m eq_refl). flyn m.
+    + intros m' a0 x E. inversion E. subst m'. destruct m; cbn. apply (h4 _ a0 x eq_refl).
+    + intros m' w E. inversion E. subst m'. destruct m; cbn. apply (h5 _ w eq_refl).
+    + intros H. destruct (h7 H) as [F [m0 [E [A' [B C]]]]]. inversion E. subst m0. split; [assumption|].
+      eexists. split; [reflexivity|]. destruct m; cbn in *. auto.
+  - (* PollMark *) destruct mg as [m|]; [|exact HS].
+    destruct (m_poll m) as [[rest|t rest|t rest]|] eqn:Pl; try exact HS.
+    assert (K' : chk_step k OpPollMark (if storedb t sto then ODone else ONotFound) = touch (with_fly (k_fly k - 1) k))
+      by (destruct (storedb t sto); reflexivity).
+    cbn [fst snd]. rewrite K'. clear K'. sim_auto HS.
+    + intros m' E. inversion E. rewrite (h3 m eq_refl). flyn m.
+    + intros m' a0 x E. inversion E. subst m'. destruct m; cbn. apply (h4 _ a0 x eq_refl).
+    + intros m' w E. inversion E. subst m'. destruct m; cbn. apply (h5 _ w eq_refl).
+    + intros p t0 Hp Hin S. apply (h6 p t0 Hp Hin). rewrite storedb_mark_failed in S. exact S.
+  - (* Deq *) destruct mg as [m|]; [|exact HS].
+    destruct (queue_of q m) as [|t tl] eqn:Q; [exact HS|].
+    destruct (0 <? idle_of q m); [|exact HS]. cbn [fst snd chk_step]. sim_auto HS.
+    + intros m' E. inversion E. rewrite (h3 m eq_refl). destruct q; flyn m.
+    + intros m' a0 x E. inversion E. subst m'. destruct m, q; cbn; apply (h4 _ a0 x eq_refl).
+    + intros m' w E. inversion E. subst m'. intros Hin Ph.
+      assert (Hin' : w = mkw q t WRun \/ In w (m_work m)) by (destruct m, q; cbn in Hin; destruct Hin; auto).
+      destruct Hin' as [->|Hin']; [discriminate|]. apply (h5 m w eq_refl Hin' Ph).
+  - (* ExecRet *) destruct mg as [m|]; [|exact HS].
+    destruct (pick (fun w => (w_t w =? t) && is_run w) (m_work m)) as [[[b w] af]|] eqn:P; [|exact HS].
+    apply pick_spec in P as [P Pf]. apply andb_true_iff in Pf as [Pf1 Pf2]. apply N.eqb_eq in Pf1.
+    assert (Ob : observe (mks c sto now (Some (set_work (b ++ mkw (w_q w) t (WFin ok) :: af) m)) (ERet t ok :: log))
+                 = observe (mks c sto now (Some m) log)).
+    { destruct m as [cl qi qr ii ir wk ad pl]. cbn [m_work] in P. subst wk. unfold observe, executing. cbn.
+      rewrite !map_app. cbn. rewrite Pf1. reflexivity. }
+    assert (Wk : forall w', In w' (b ++ mkw (w_q w) t (WFin ok) :: af) ->
+                 w' = mkw (w_q w) t (WFin ok) \/ In w' (m_work m)).
+    { intros w' Hin. rewrite P. apply in_app_or in Hin. rewrite in_app_iff. cbn in *. destruct Hin as [|[|]]; auto. }
+    destruct ok; cbn [fst snd chk_step]; sim_auto HS.
+    + intros H. rewrite Ob. auto.
+    + intros m' E. inversion E. rewrite (h3 m eq_refl). flyn m.
+    + intros m' a0 x E. inversion E. subst m'. destruct m; cbn. apply (h4 _ a0 x eq_refl).
+    + intros m' w' E. inversion E. subst m'. intros Hin Ph.
+      assert (Hin' : In w' (b ++ mkw (w_q w) t (WFin true) :: af)) by (destruct m; exact Hin).
+      destruct (Wk w' Hin') as [->|Hin'']; [left; reflexivity|]. right. apply (h5 m w' eq_refl Hin'' Ph).
+    + intros p t0 Hp Hin S. right. apply (h6 p t0 Hp Hin S).
+    + intros H. destruct (h7 H) as [F [m0 [E [A' [B C]]]]]. inversion E. subst m0. rewrite C in P.
+      destruct b; discriminate.
+    + intros H. rewrite Ob. auto.
+    + intros m' E. inversion E. rewrite (h3 m eq_refl). flyn m.
+    + intros m' a0 x E. inversion E. subst m'. destruct m; cbn. apply (h4 _ a0 x eq_refl).
+    + intros m' w' E. inversion E. subst m'. intros Hin Ph.
+      assert (Hin' : In w' (b ++ mkw (w_q w) t (WFin false) :: af)) by (destruct m; exact Hin).
+      destruct (Wk w' Hin') as [->|Hin'']; [discriminate|]. apply (h5 m w' eq_refl Hin'' Ph).
+    + intros H. destruct (h7 H) as [F [m0 [E [A' [B C]]]]]. inversion E. subst m0. rewrite C in P.
+      destruct b; discriminate.
+  - (* ExecFin *) destruct mg as [m|]; [|exact HS].
+    destruct (pick (fun w => (w_t w =? t) && is_fin w) (m_work m)) as [[[b w] af]|] eqn:P; [|exact HS].
+    apply pick_spec in P as [P Pf]. apply andb_true_iff in Pf as [Pf1 Pf2]. apply N.eqb_eq in Pf1.
+    assert (Wk : forall w', In w' (m_work (set_idle (w_q w) (idle_of (w_q w) m + 1) (set_work (b ++ af) m))) -> In w' (m_work m)).
+    { intros w' Hin. rewrite P. destruct m, (w_q w); cbn in Hin; apply in_app_or in Hin; apply in_or_app; cbn; tauto. }
+    assert (Hw : In w (m_work m)) by (rewrite P; apply in_or_app; right; left; reflexivity).
+    assert (K' : chk_step k (OpExecFin t) (if storedb t sto then OFailed else ONotFound) = touch k)
+      by (destruct (storedb t sto); reflexivity).
+    destruct (w_ph w) as [|[|]] eqn:Ph; cbn [fst snd]; rewrite ?K'; cbn [chk_step]; sim_auto HS.
+    + intros m' E. inversion E. rewrite (h3 m eq_refl). destruct (w_q w); flyn m.
+    + intros m' a0 x E. inversion E. subst m'. destruct m, (w_q w); cbn; apply (h4 _ a0 x eq_refl).
+    + intros m' w' E. inversion E. subst m'. intros Hin. apply (h5 m w' eq_refl). apply Wk. assumption.
+    + intros p t0 Hp Hin S. apply (h6 p t0 Hp Hin). rewrite storedb_mark_failed in S. exact S.
+    + intros m' E. inversion E. rewrite (h3 m eq_refl). destruct (w_q w); flyn m.
+    + intros m' a0 x E. inversion E. subst m'. destruct m, (w_q w); cbn; apply (h4 _ a0 x eq_refl).
+    + intros m' w' E. inversion E. subst m'. intros Hin. apply (h5 m w' eq_refl). apply Wk. assumption.
+    + intros p t0 Hp Hin S. rewrite storedb_remove in S. apply andb_false_iff in S as [S|S].
+      * apply negb_false_iff, N.eqb_eq in S. subst t0. rewrite <- Pf1. apply (h5 m w eq_refl Hw Ph).
+      * apply (h6 p t0 Hp Hin S).
+    + intros m' E. inversion E. rewrite (h3 m eq_refl). destruct (w_q w); flyn m.
+    + intros m' a0 x E. inversion E. subst m'. destruct m, (w_q w); cbn; apply (h4 _ a0 x eq_refl).
+    + intros m' w' E. inversion E. subst m'. intros Hin. apply (h5 m w' eq_refl). apply Wk. assumption.
+    + intros p t0 Hp Hin S. apply (h6 p t0 Hp Hin). rewrite storedb_mark_failed in S. exact S.
+  - (* Observe *)
+    set (s := mks c sto now mg log). cbn [fst snd chk_step].
+    assert (C1 : cl_removed k (observe s) = true).
+    { unfold cl_removed. destruct (k_obs k) as [p|] eqn:Ko; [|reflexivity].
+      apply forallb_forall. intros t Hin. rewrite observe_oids, memb_ids. cbn [s_store s].
+      destruct (storedb t sto) eqn:S; [reflexivity|]. cbn. apply memb_In. apply (sim_gone _ _ HS p t Ko Hin S). }
+    assert (C2 : cl_held k (observe s) = true).
+    { unfold cl_held. destruct mg as [m|]; [|reflexivity]. destruct Hm as [Hh [Hs Hl]].
+      replace (ob_alive (observe s)) with true by reflexivity.
+      rewrite observe_pending. cbn [s_store s]. apply andb_true_iff. split.
+      - apply N.eqb_eq. rewrite (held_length sto m Hn Hh), (sim_fly _ _ HS m eq_refl). reflexivity.
+      - apply forallb_forall. intros t Hin. apply memb_In, in_pending_ids.
+        apply (held_pending sto m t Hh). apply held_iff. right. right. left. exact Hin. }
+    assert (C3 : cl_fresh k (observe s) = true).
+    { unfold cl_fresh. destruct (k_fresh k) eqn:Kf; [|reflexivity].
+      destruct (sim_fresh _ _ HS Kf) as [F [m0 [E [A' [B C]]]]]. cbn [s_mgr s_store] in *. subst mg.
+      unfold observe, executing. cbn [s_mgr s_store s]. rewrite A', B, C. cbn.
+      rewrite !andb_true_r. apply forallb_forall. intros r Hr. apply in_map_iff in Hr as [x [<- Hx]].
+      unfold orow_pending. cbn. rewrite (F x Hx). reflexivity. }
+    assert (C4 : cl_noop k (observe s) = true).
+    { unfold cl_noop. destruct (k_noop k) eqn:Kn; [|reflexivity].
+      rewrite (sim_cur _ _ HS (sim_noop _ _ HS Kn)). apply obs_eqb_refl. }
+    rewrite C1, C2, C3, C4. sim_auto HS.
+    + rewrite h1. reflexivity.
+    + intros m w E Hin Ph. apply filter_In. split; [apply (h5 m w E Hin Ph)|].
+      rewrite observe_oids, memb_ids. cbn [s_store s]. subst mg. destruct Hm as [Hh _].
+      apply pendingb_stored. apply (held_pending sto m _ Hh). apply held_iff. right. right. left.
+      unfold executing. apply in_map. assumption.
+    + intros p t E Hin S. inversion E. subst p. rewrite observe_oids in Hin. apply storedb_In in Hin.
+      cbn [s_store s] in Hin. congruence.
+Qed.
